@@ -167,7 +167,7 @@ TwoFoldMode(s) == CASE s \in {"orthorhombic", "tetragonal", "hexagonal"} -> "all
 
 GenericTextures == {"uniform", "single", "clustered", "girdle"}
 EdgeTextures == {"halfturn", "twinned"}        \* pairs exactly at theta_max (closed upper end of the range)
-Textures == GenericTextures \cup EdgeTextures
+Textures == GenericTextures \cup EdgeTextures \cup {"halves"}
 EdgeSystems == {"triclinic"}                   \* systems where an exact half-turn is exactly theta_max apart
 \* multiplicities of {identity, two-folds about x, y, z} (which orientation gets which count is the harness's draw)
 HalfturnMults == {<<1, 1, 0, 0>>, <<1, 1, 1, 0>>, <<1, 1, 1, 1>>, <<2, 1, 0, 0>>, <<2, 2, 0, 0>>, <<3, 2, 1, 0>>,
@@ -243,8 +243,16 @@ EdgeScenarios ==
 TheoryScenarios ==
     {[kind |-> "theory", system |-> Systems[k], sysno |-> k, theta_max |-> ThetaMax(Systems[k]),
       group_order |-> GroupOrder(Systems[k])] : k \in 1..Len(Systems)}
+\* "halves": a grain list that is NOT exchangeable (first half clustered, second half uniformly random) with more
+\* grains than any plausible internal chunk of grains or pairs - reordering the list must still not matter
+BlockSizes == IF 2000 \in Sizes THEN {640, 1030} ELSE {640}
+BlockScenarios ==
+    {[kind |-> "index", system |-> Systems[k], sysno |-> k, texture |-> "halves", n |-> n, rep |-> 1,
+      level |-> "blocks", theta_max |-> ThetaMax(Systems[k]), group_order |-> GroupOrder(Systems[k]),
+      relations |-> <<"permutation">>, axes |-> TwoFoldAxes(Systems[k]), mode |-> TwoFoldMode(Systems[k])] :
+        k \in {j \in 1..Len(Systems) : Systems[j] \in {"triclinic", "orthorhombic"}}, n \in BlockSizes}
 Scenarios == {sc \in IndexScenarios : sc.texture \in TexturesFor(sc.n) /\ sc.rep <= RepsFor(sc.n)}
-             \cup EdgeScenarios
+             \cup EdgeScenarios \cup BlockScenarios
              \cup TheoryScenarios
 
 \* design-level lemmas about the law itself (TLC evaluates them once, whatever the cfg)
